@@ -113,6 +113,17 @@ class HangError(Exception):
     pass
 
 
+RUNS = []   # (work, chunks, init) of every run_chunks() call of this process, for chunk-level replays (runner.chunk_replay)
+
+
+def _tag(res, run_idx, cid):
+    """Marks the violations of a chunk with where they came from."""
+    for lst in getattr(res, "viol", {}).values():
+        for v in lst:
+            v.setdefault("chunk", [run_idx, cid])
+    return res
+
+
 def run_chunks(work, chunks, nproc=None, case_timeout=20.0, mem_limit=6 << 30,
                init=None, progress=None):
     """Run work over chunks; yields (chunk_id, result, hung_indexes).
@@ -124,6 +135,8 @@ def run_chunks(work, chunks, nproc=None, case_timeout=20.0, mem_limit=6 << 30,
     chunks = list(chunks)
     if not chunks:
         return
+    run_idx = len(RUNS)
+    RUNS.append((work, chunks, init))
     nproc = max(1, min(nproc or (os.cpu_count() or 4), len(chunks)))
     taskq = CTX.Queue()
     resq = CTX.Queue()
@@ -157,7 +170,7 @@ def run_chunks(work, chunks, nproc=None, case_timeout=20.0, mem_limit=6 << 30,
                     pending.discard(cid)
                     if progress:
                         progress(len(chunks) - len(pending), len(chunks))
-                    yield cid, res, sorted(skips[cid])
+                    yield cid, _tag(res, run_idx, cid), sorted(skips[cid])
                 continue
             if kind in ("err", "fatal"):
                 raise RuntimeError("worker failure in chunk %r:\n%s" % (cid, res))
